@@ -188,19 +188,38 @@ def strip_lean_comments(src):
     return "".join(out)
 
 
-def grep_forbidden():
-    """Return list of (file, line, text) of forbidden tokens outside comments in the Lean tree."""
+def import_closure(roots):
+    """Local Lean modules (files under LEAN) reachable from the given module names via `import`."""
+    seen, todo = {}, list(roots)
+    while todo:
+        m = todo.pop()
+        if m in seen:
+            continue
+        p = os.path.join(LEAN, *m.split(".")) + ".lean"
+        if not os.path.exists(p):
+            continue
+        seen[m] = p
+        for im in re.findall(r"^import\s+([A-Za-z0-9_.]+)", open(p).read(), re.M):
+            todo.append(im)
+    return seen
+
+
+def grep_forbidden(prop=None):
+    """(file, line, token) of forbidden tokens outside comments in the Lean files the property's
+    theorem module, audit file and driver depend on (all Lean files if prop is None)."""
+    if prop is None:
+        files = []
+        for root, dirs, fs in os.walk(LEAN):
+            dirs[:] = [x for x in dirs if x != ".lake"]
+            files += [os.path.join(root, f) for f in fs if f.endswith(".lean")]
+    else:
+        files = list(import_closure(["LibfiveTheorems." + prop, "Audit." + prop, "Mains." + prop]).values())
     hits = []
-    for root, dirs, files in os.walk(LEAN):
-        dirs[:] = [x for x in dirs if x not in (".lake",)]
-        for f in files:
-            if not f.endswith(".lean"):
-                continue
-            p = os.path.join(root, f)
-            src = strip_lean_comments(open(p).read())
-            for m in FORBIDDEN.finditer(src):
-                ln = src.count("\n", 0, m.start()) + 1
-                hits.append((os.path.relpath(p, LEAN), ln, m.group(0).strip()))
+    for p in sorted(files):
+        src = strip_lean_comments(open(p).read())
+        for m in FORBIDDEN.finditer(src):
+            ln = src.count("\n", 0, m.start()) + 1
+            hits.append((os.path.relpath(p, LEAN), ln, m.group(0).strip()))
     return hits
 
 
@@ -213,7 +232,7 @@ def audit(prop):
         res["ok"] = False
         res["problems"].append({"kind": "lake-build-failed", "output": out[-6000:]})
         return res
-    hits = grep_forbidden()
+    hits = grep_forbidden(prop)
     if hits:
         res["ok"] = False
         res["problems"].append({"kind": "forbidden-token", "hits": hits})
@@ -225,7 +244,7 @@ def audit(prop):
         return res
     # parse "'name' depends on axioms: [a, b]" / "'name' does not depend on any axioms"
     text = re.sub(r"\s+", " ", r.stdout)
-    for m in re.finditer(r"'([^']+)' (does not depend on any axioms|depends on axioms: \[([^\]]*)\])", text):
+    for m in re.finditer(r"'(\S+)' (does not depend on any axioms|depends on axioms: \[([^\]]*)\])", text):
         axs = [a.strip() for a in (m.group(3) or "").split(",") if a.strip()]
         res["theorems"].append({"name": m.group(1), "axioms": axs})
         bad = [a for a in axs if a not in ALLOWED_AXIOMS]
